@@ -40,6 +40,7 @@ func c20Values() []object.Object {
 func c20(c *ev.Ctx) {
 	c.SetRule("front-end differential: (1) Run vs truth of Execute on fresh evaluators for generated scripts/objects; (2) SetVariable / GetVariable round trips for a value of every type; (3) host functions of arity 0-6 and every return type incl. void: called exactly once per call, arguments in order, result is the call's value; (4) NoOptimize switches optimisation off and (via C03's differential, repeated here on a sample) nothing else; (5) random API call orders {SetVariable, AddFunction, Prepare, Run, Execute, GetVariable} against a canonical-order fresh evaluator; (6) the command-line driver built from /repo/cmd/evalfilter: `run [-json f] [-no-optimizer] [-timeout d]` output parsed and compared with Execute on the same decoded JSON document; lex / parse / bytecode / run on hostile scripts and JSON files must terminate by themselves without panic traces. Distinct = distinct case text; all non-trivial.")
 	c20RunVsExecute(c)
+	c20RunSequences(c)
 	c20Variables(c)
 	c20HostFunctions(c)
 	c20NoOptimize(c)
@@ -940,4 +941,58 @@ func c20CLI(c *ev.Ctx) {
 		}
 	})
 	_ = rand.Int
+}
+
+type c20Record struct {
+	Name  string
+	Count int
+	Kind  string
+	Tags  []string
+}
+
+// c20RunSequences: a host filters a stream of records through one prepared evaluator with
+// Run; some records make the script fail (wrong argument count on a path only they take,
+// a division by zero, an unknown function). For every record Run gives exactly the truth
+// and the failure of Execute on a fresh evaluator - whatever happened to earlier records.
+func c20RunSequences(c *ev.Ctx) {
+	scripts := []string{
+		`function weigh(a, b) { return a * b; } if (Kind == "odd") { return weigh(Count) > 3; } if (Kind == "zero") { return 10 / (Count - Count) > 1; } return weigh(Count, 2) > 5 && Name ~= /e/;`,
+		`function tagged(t1) { foreach x in Tags { if (x == t1) { return true; } } return false; } if (Kind == "odd") { return tagged(); } if (Kind == "zero") { return nosuch(Name); } return tagged("a") || len(Name) > 4;`,
+		`function deep(n) { if (n <= 0) { return Count; } return deep(n - 1); } if (Kind == "odd") { return deep(3, 4); } return deep(5) > 2 && !(Name ~= /^z/);`,
+	}
+	n := c.Pick(120, 3000)
+	c.ParFor(n, func(i int) {
+		id := fmt.Sprintf("run-sequence/%d", i)
+		if !c.Want(id) {
+			return
+		}
+		r := c.Rng("run-sequence", i)
+		script := scripts[r.Intn(len(scripts))]
+		noOpt := r.Intn(2) == 0
+		shared, err := eng.New(script, eng.Options{NoOptimize: noOpt})
+		if err != nil {
+			return
+		}
+		byPointer := r.Intn(2) == 0
+		for step := 0; step < 8; step++ {
+			rec := c20Record{Name: []string{"steve", "zed", "eleanor", "bob", ""}[r.Intn(5)], Count: r.Intn(6), Kind: []string{"plain", "plain", "odd", "zero", "other"}[r.Intn(5)], Tags: [][]string{nil, {"a"}, {"b", "a"}, {"c"}}[r.Intn(4)]}
+			var obj interface{} = rec
+			if byPointer {
+				obj = &rec
+			}
+			fresh, err := eng.New(script, eng.Options{NoOptimize: noOpt})
+			if err != nil {
+				return
+			}
+			want := fresh.Exec(obj)
+			got, gerr, pan, _ := shared.RunBool(obj)
+			c.Case(fmt.Sprint(id, step), true)
+			wantTruth := want.Err == nil && want.Truth
+			if pan || (gerr != nil) != (want.Err != nil) || (gerr == nil && got != wantTruth) || (gerr != nil && errText(gerr) != errText(want.Err)) {
+				c.Violation(id, "Run on a shared evaluator differs from Execute on a fresh one", map[string]interface{}{
+					"summary": fmt.Sprintf("%s (noopt=%v), record %d of the stream %+v: Run gives %v err=%v, Execute on a fresh evaluator gives %s %s", script, noOpt, step+1, rec, got, gerr, want.Desc(), errText(want.Err)), "script": script})
+				return
+			}
+		}
+	})
 }
